@@ -330,7 +330,8 @@ public:
     {
         invariants();
 
-        return m_data.at(theIndex);
+        // (the terminating null character is not part of the string)
+        return m_data.at(theIndex < m_size ? theIndex : m_data.size());
     }
 
     reference
@@ -338,7 +339,7 @@ public:
     {
         invariants();
 
-        return m_data.at(theIndex);
+        return m_data.at(theIndex < m_size ? theIndex : m_data.size());
     }
 
     const XalanDOMChar*
